@@ -1,5 +1,6 @@
 (* Props/C11.v — A crash at any instant leaves a consistent, usable workspace.  Statements only. *)
-From RN Require Import Base.Bytes Model.Edits Model.Fs Model.ApplyModel Model.Lock Proofs.LockP.
+From RN Require Import Base.Bytes Model.Edits Model.Fs Model.ApplyModel Model.Lock Proofs.LockP Proofs.EditsP.
+From RN Require Proofs.Apply2P.
 
 (* the tree a kill before operation k leaves behind is, by definition of the model, the result of a
    prefix of the fault-free operation sequence; nothing is ever executed out of order *)
@@ -17,6 +18,26 @@ Theorem C11_lock_created_with_content : forall w p w',
   (lock w = None /\ lock w' = Some (CValid p (now w))) \/ (lock w <> None /\ lock w' = lock w).
 Proof. exact enter_needs_absent. Qed.
 
+(* content stage: after a kill at ANY operation of a content-only apply every original name holds its old
+   node or — a planned regular file — the complete output of the splice; no name ever holds a mixture.
+   Hypothesis: nothing of the tree lives at or below the temp name of a planned file. *)
+Theorem C11_crash_content_atomic : forall p t k q n,
+  ap_renames p = [] -> r_ok (apply_core no_fault p t) = true ->
+  lookup t q = Some n ->
+  (forall f es, In (f, es) (edits_by_file (ap_hunks p)) -> Apply2P.free_at t (tmp_of f)) ->
+  Apply2P.old_or_new (edits_by_file (ap_hunks p)) q n (crash_prefix p t k).
+Proof. exact Apply2P.crash_content_atomic_gen. Qed.
+
+Theorem C11_crash_unplanned_untouched : forall p t k q n,
+  ap_renames p = [] -> r_ok (apply_core no_fault p t) = true ->
+  lookup t q = Some n ->
+  (forall f es, In (f, es) (edits_by_file (ap_hunks p)) -> Apply2P.free_at t (tmp_of f)) ->
+  ~ In q (map fst (edits_by_file (ap_hunks p))) ->
+  lookup (crash_prefix p t k) q = Some n.
+Proof. exact Apply2P.crash_unplanned_untouched. Qed.
+
 Print Assumptions C11_crash_prefix_is_prefix.
 Print Assumptions C11_crash_at_zero_unchanged.
 Print Assumptions C11_lock_created_with_content.
+Print Assumptions C11_crash_content_atomic.
+Print Assumptions C11_crash_unplanned_untouched.
